@@ -19,7 +19,7 @@ SubDefault == [null |-> FALSE, si |-> 7, sf |-> 6, st |-> FALSE, sa |-> <<4, 4>>
 NullSub == [null |-> TRUE]
 FxDefault == [null |-> FALSE, gain |-> 3, level |-> 11, type |-> 0, voice |-> << [vol |-> 64], [vol |-> 64] >>]
 Default == [pc |-> 64, pi |-> 5, pn |-> 0, pf |-> 2, pg |-> 4, pt |-> FALSE, po |-> 1, ps |-> <<97, 98, 99>>, preset |-> 0, dep |-> 10, mode |-> 0, dep2 |-> 1, chain |-> 0, tg |-> FALSE, dep3 |-> 5,
-            ai |-> <<3, 3, 3>>, af |-> <<1, 1, 1>>, at |-> <<FALSE, FALSE>>, al |-> <<0, 0, 0, 0, 0, 0, 0, 0>>, ab |-> <<FALSE, FALSE, FALSE, FALSE, FALSE, FALSE, FALSE, FALSE>>,
+            ai |-> <<3, 3, 3>>, af |-> <<1, 1, 1>>, at |-> <<FALSE, FALSE>>, al |-> <<0, 0, 0, 0, 0, 0, 0, 0>>, ab |-> <<FALSE, FALSE, FALSE, FALSE, FALSE, FALSE, FALSE, FALSE>>, a2x |-> <<0, 0, 0>>,
             fx_on |-> FALSE, fx |-> [null |-> TRUE], sub_on |-> TRUE, sub |-> SubDefault,
             subs |-> <<SubDefault, SubDefault>>, palloc |-> FALSE, psub |-> NullSub, preset_b |-> 0, osc |-> [gain |-> 5], osc_type |-> 0]
 PresetDefault(p) == CASE p = 0 -> 10 [] p = 1 -> 20 [] OTHER -> 30
@@ -45,6 +45,7 @@ Param(addr) ==
     [] addr = "/at0" -> Elem("at", 1, "T", 0, 0) [] addr = "/at1" -> Elem("at", 2, "T", 0, 0)
     [] addr = "/al0" -> Elem("al", 1, "I", 0, 100) [] addr = "/al1" -> Elem("al", 2, "I", 0, 100) [] addr = "/al2" -> Elem("al", 3, "I", 0, 100) [] addr = "/al3" -> Elem("al", 4, "I", 0, 100)
     [] addr = "/al4" -> Elem("al", 5, "I", 0, 100) [] addr = "/al5" -> Elem("al", 6, "I", 0, 100) [] addr = "/al6" -> Elem("al", 7, "I", 0, 100) [] addr = "/al7" -> Elem("al", 8, "I", 0, 100)
+    [] addr = "/a2x0" -> Elem("a2x", 1, "I", 0, 100) [] addr = "/a2x1" -> Elem("a2x", 2, "I", 0, 100) [] addr = "/a2x2" -> Elem("a2x", 3, "I", 0, 100)
     [] addr = "/ab0" -> Elem("ab", 1, "T", 0, 0) [] addr = "/ab1" -> Elem("ab", 2, "T", 0, 0) [] addr = "/ab2" -> Elem("ab", 3, "T", 0, 0) [] addr = "/ab3" -> Elem("ab", 4, "T", 0, 0)
     [] addr = "/ab4" -> Elem("ab", 5, "T", 0, 0) [] addr = "/ab5" -> Elem("ab", 6, "T", 0, 0) [] addr = "/ab6" -> Elem("ab", 7, "T", 0, 0) [] addr = "/ab7" -> Elem("ab", 8, "T", 0, 0)
     [] addr = "/fx_on" -> Scalar("fx_on", "T", 0, 0) [] addr = "/fx/gain" -> [where |-> "fx", f |-> "gain", i |-> 0, j |-> 0, kind |-> "i", lo |-> 0, hi |-> 10]
@@ -58,7 +59,7 @@ Param(addr) ==
     [] addr = "/psub/si" -> InSub("psub", 0, SubDef[1]) [] addr = "/psub/sf" -> InSub("psub", 0, SubDef[2]) [] addr = "/psub/st" -> InSub("psub", 0, SubDef[3])
     [] addr = "/sub/sa0" -> SubElem("sub", 0, 1) [] addr = "/sub/sa1" -> SubElem("sub", 0, 2) [] addr = "/subs0/sa0" -> SubElem("subs", 1, 1) [] addr = "/subs0/sa1" -> SubElem("subs", 1, 2)
     [] addr = "/subs1/sa0" -> SubElem("subs", 2, 1) [] addr = "/subs1/sa1" -> SubElem("subs", 2, 2) [] addr = "/psub/sa0" -> SubElem("psub", 0, 1) [] addr = "/psub/sa1" -> SubElem("psub", 0, 2)
-Addresses == << "/pc", "/pi", "/pn", "/pf", "/pg", "/pt", "/po", "/ps", "/preset", "/dep", "/mode", "/dep2", "/chain", "/tg", "/dep3", "/ai0", "/ai1", "/ai2", "/af0", "/af1", "/af2", "/at0", "/at1", "/al0", "/al1", "/al2", "/al3", "/al4", "/al5", "/al6", "/al7", "/ab0", "/ab1", "/ab2", "/ab3", "/ab4", "/ab5", "/ab6", "/ab7", "/fx_on", "/fx/gain", "/fx/level", "/fx/type", "/fx/voice0/vol", "/fx/voice1/vol",
+Addresses == << "/pc", "/pi", "/pn", "/pf", "/pg", "/pt", "/po", "/ps", "/preset", "/dep", "/mode", "/dep2", "/chain", "/tg", "/dep3", "/ai0", "/ai1", "/ai2", "/af0", "/af1", "/af2", "/at0", "/at1", "/al0", "/al1", "/al2", "/al3", "/al4", "/al5", "/al6", "/al7", "/a2x0", "/a2x1", "/a2x2", "/ab0", "/ab1", "/ab2", "/ab3", "/ab4", "/ab5", "/ab6", "/ab7", "/fx_on", "/fx/gain", "/fx/level", "/fx/type", "/fx/voice0/vol", "/fx/voice1/vol",
                 "/sub_on", "/sub/si", "/sub/sf", "/sub/st", "/subs0/si", "/subs0/sf", "/subs0/st", "/subs1/si", "/subs1/sf", "/subs1/st",
                 "/palloc", "/psub/si", "/psub/sf", "/psub/st", "/preset_b", "/osc/gain", "/osc_type",
                 "/sub/sa0", "/sub/sa1", "/subs0/sa0", "/subs0/sa1", "/subs1/sa0", "/subs1/sa1", "/psub/sa0", "/psub/sa1" >>
@@ -110,7 +111,7 @@ EvType(p) == CASE p.kind = "c" -> "c" [] p.kind \in {"i", "I", "o"} -> "i" [] p.
 SubSerAddrs(c) == << c \o "/si", c \o "/sf", c \o "/st", c \o "/sa0", c \o "/sa1" >>
 SerAddrs == << "/pc", "/pi", "/pn", "/pf", "/pg", "/pt", "/po", "/ps", "/preset_b", "/preset", "/dep", "/mode", "/dep2", "/chain", "/tg", "/dep3",
                "/ai0", "/ai1", "/ai2", "/af0", "/af1", "/af2", "/at0", "/at1", "/al0", "/al1", "/al2", "/al3", "/al4", "/al5", "/al6", "/al7",
-               "/ab0", "/ab1", "/ab2", "/ab3", "/ab4", "/ab5", "/ab6", "/ab7", "/fx_on", "/fx/gain", "/fx/level", "/fx/type", "/fx/voice0/vol", "/fx/voice1/vol", "/sub_on" >>
+               "/a2x0", "/a2x1", "/a2x2", "/ab0", "/ab1", "/ab2", "/ab3", "/ab4", "/ab5", "/ab6", "/ab7", "/fx_on", "/fx/gain", "/fx/level", "/fx/type", "/fx/voice0/vol", "/fx/voice1/vol", "/sub_on" >>
             \o SubSerAddrs("/sub") \o SubSerAddrs("/subs0") \o SubSerAddrs("/subs1") \o << "/palloc" >> \o SubSerAddrs("/psub") \o << "/osc/gain", "/osc_type" >>
 SerTimeTag == << 57005, 48879, 2571, 3085 >>                                    \* 0xdeadbeef0a0b0c0d as four 16-bit limbs
 \* the elements: address, the type the port answers with, the stored value
@@ -143,14 +144,14 @@ ScalarLines(s) == { [addr |-> a, vals |-> <<FileVal(Param(a), GetV(s, Param(a)))
                       a \in { ScalarAddrs[i] : i \in { j \in 1..Len(ScalarAddrs) : Reachable(s, Param(ScalarAddrs[j])) /\ GetV(s, Param(ScalarAddrs[j])) # DefaultOf(s, ScalarAddrs[j]) } } }
 \* an array is one line with its elements up to the last one that differs from the default
 LastDiff(cur, def) == IF \E i \in 1..Len(cur) : cur[i] # def[i] THEN CHOOSE i \in 1..Len(cur) : cur[i] # def[i] /\ \A j \in (i + 1)..Len(cur) : cur[j] = def[j] ELSE 0
-ArrayLines(s) == { [addr |-> "/" \o f, vals |-> << SubSeq(s[f], 1, LastDiff(s[f], Default[f])) >>] : f \in { g \in {"ai", "af", "at", "al", "ab"} : LastDiff(s[g], Default[g]) > 0 } }
+ArrayLines(s) == { [addr |-> "/" \o f, vals |-> << SubSeq(s[f], 1, LastDiff(s[f], Default[f])) >>] : f \in { g \in {"ai", "af", "at", "al", "ab", "a2x"} : LastDiff(s[g], Default[g]) > 0 } }
 \* the arrays inside the sub-trees that can be reached
 SubOf(s, c) == CASE c = "/sub" -> s.sub [] c = "/subs0" -> s.subs[1] [] c = "/subs1" -> s.subs[2] [] OTHER -> s.psub
 SubReachable(s, c) == CASE c = "/sub" -> s.sub_on [] c = "/psub" -> s.palloc /\ ~ s.psub.null [] OTHER -> TRUE
 SubArrayLines(s) == { [addr |-> c \o "/sa", vals |-> << SubSeq(SubOf(s, c).sa, 1, LastDiff(SubOf(s, c).sa, SubDefault.sa)) >>] :
                         c \in { d \in {"/sub", "/subs0", "/subs1", "/psub"} : SubReachable(s, d) /\ LastDiff(SubOf(s, d).sa, SubDefault.sa) > 0 } }
 SaveLines(s) == ScalarLines(s) \cup ArrayLines(s) \cup SubArrayLines(s)
-ArrayLineAddrs == {"/ai", "/af", "/at", "/al", "/ab", "/sub/sa", "/subs0/sa", "/subs1/sa", "/psub/sa"}
+ArrayLineAddrs == {"/ai", "/af", "/at", "/al", "/ab", "/a2x", "/sub/sa", "/subs0/sa", "/subs1/sa", "/psub/sa"}
 \* ------------------------------------------------------------------ loading (C12, C13)
 \* the messages a line stands for (an array line is one message per element)
 LineMsgs(ln) == IF ln.addr \in ArrayLineAddrs
